@@ -1,4 +1,5 @@
 SPECIFICATION Spec
 CONSTANT FixF1 = TRUE
+CONSTANT FixF18 = TRUE
 INVARIANT AllMatch
 CHECK_DEADLOCK FALSE
